@@ -2,4 +2,12 @@
 
 package visitor
 
-func (vm *Manager) ZZListeners() int { return len(vm.listeners) }
+import "github.com/fatedier/frp/zzverif"
+
+func (vm *Manager) ZZListeners() int {
+	vm.mu.RLock()
+	defer vm.mu.RUnlock()
+	return len(vm.listeners)
+}
+
+func (vm *Manager) ZZGuard() { zzverif.Guard(vm.listeners, &vm.mu, "visitor.Manager.listeners") }
